@@ -14,7 +14,7 @@ THEOREMS = [
     "Registry.registered_under_current_name", "Registry.registered_names_unique", "Registry.registered_exactly_once",
     "Registry.contents_coherent", "Registry.child_listed_or_superseded", "Registry.every_object_named",
     # the per-operation theorems and the key lemmas they rest on
-    "Registry.addObject_inv", "Registry.reparent_inv", "Registry.handleDuplicate_spec", "Registry.freeIndex_free",
+    "Registry.addObject_inv", "Registry.reparent_inv", "Registry.reparent_spec", "Registry.handleDuplicate_spec", "Registry.freeIndex_free",
     "Registry.delAll_spec", "Registry.addAll_spec", "Registry.reroot",
     # base case and dict algebra
     "Registry.inv_init", "Registry.inv_holds_init",
